@@ -257,12 +257,36 @@ pub fn unstage_binaries() {
 
 impl Executor {
     pub fn new(simhost: &Path, tag: &str) -> Result<Executor, String> {
-        Ok(Executor { simhost: stage_binary(simhost, tag)?, tag: tag.to_owned() })
+        Ok(Executor { simhost: stage_binary(simhost, tag)?, launcher: launcher_path()?, tag: tag.to_owned() })
     }
+}
+
+/// The trampoline that drops privileges etc. in the child, so that the runner itself can use posix_spawn (forking a
+/// multi-threaded runner sixteen-fold is what used to dominate the cost of a run).
+pub fn launcher_path() -> Result<PathBuf, String> {
+    let p = crate::ws::build_root(&crate::ws::verif_root()).join("static/release/launcher");
+    if p.exists() {
+        Ok(p)
+    } else {
+        Err(format!("{} is missing (./check builds it)", p.display()))
+    }
+}
+
+pub fn launch(launcher: &Path, program: &Path, args: &[String], uid: Option<u32>, alarm_s: u32, as_limit: u64, no_aslr: bool) -> Command {
+    let mut cmd = Command::new(launcher);
+    cmd.arg(uid.map(|u| u.to_string()).unwrap_or_else(|| "-".into()))
+        .arg(alarm_s.to_string())
+        .arg(as_limit.to_string())
+        .arg(if no_aslr { "1" } else { "0" })
+        .arg("--")
+        .arg(program)
+        .args(args);
+    cmd
 }
 
 pub struct Executor {
     pub simhost: PathBuf,
+    pub launcher: PathBuf,
     pub tag: String,
 }
 
@@ -284,6 +308,8 @@ impl Executor {
     }
 
     fn run_in(&self, scenario: &Scenario, dir: &Path) -> Result<RunResult, String> {
+        let t0 = std::time::Instant::now();
+        let profile = std::env::var_os("VERIF_PROFILE").is_some();
         let privileged = is_root();
         let root = dir.join("w");
         build_world(&root, &scenario.world, privileged)?;
@@ -299,9 +325,8 @@ impl Executor {
 
         // "@ROOT@" in an argument stands for the absolute path of this execution's world
         let argv: Vec<String> = scenario.argv.iter().map(|a| a.replace("@ROOT@", &sim.root)).collect();
-        let mut cmd = Command::new(&self.simhost);
-        cmd.args(&argv)
-            .current_dir(&cwd)
+        let mut cmd = launch(&self.launcher, &self.simhost, &argv, if privileged { Some(UNPRIVILEGED) } else { None }, 20, 4 << 30, true);
+        cmd.current_dir(&cwd)
             .env_clear()
             .env("SIM_SCENARIO", &sc_path)
             .env("SIM_TRACE", &trace_path)
@@ -309,25 +334,9 @@ impl Executor {
             .stdin(Stdio::null())
             .stdout(Stdio::piped())
             .stderr(Stdio::piped());
-        unsafe {
-            cmd.pre_exec(move || {
-                // no address-space randomisation: the seeded heap shift replaces it
-                libc::personality(libc::ADDR_NO_RANDOMIZE as libc::c_ulong);
-                let lim = libc::rlimit { rlim_cur: 4 << 30, rlim_max: 4 << 30 };
-                libc::setrlimit(libc::RLIMIT_AS, &lim);
-                let zero = libc::rlimit { rlim_cur: 0, rlim_max: 0 };
-                libc::setrlimit(libc::RLIMIT_CORE, &zero);
-                // wall-clock backstop for a real (not simulated) hang; survives exec
-                libc::alarm(20);
-                if privileged {
-                    if libc::setgroups(0, std::ptr::null()) != 0 || libc::setgid(UNPRIVILEGED) != 0 || libc::setuid(UNPRIVILEGED) != 0 {
-                        return Err(std::io::Error::last_os_error());
-                    }
-                }
-                Ok(())
-            });
-        }
+        let t1 = std::time::Instant::now();
         let out = cmd.output().map_err(|e| format!("cannot start {}: {e}", self.simhost.display()))?;
+        let t2 = std::time::Instant::now();
         let exit = match out.status.code() {
             Some(c) => Exit::Code(c),
             None => Exit::Signal(out.status.signal().unwrap_or(0)),
@@ -353,7 +362,11 @@ impl Executor {
                 Err(_) => garbled = true,
             }
         }
+        let t3 = std::time::Instant::now();
         let after = snapshot(&root);
+        if profile {
+            eprintln!("profile: world+before {:?} run {:?} trace({} bytes) {:?} after {:?}", t1 - t0, t2 - t1, raw.len(), t3 - t2, t3.elapsed());
+        }
         Ok(RunResult { exit, stdout: out.stdout, stderr: out.stderr, trace, trace_digest: digest.0, trace_garbled: garbled, before, after, root: sim.root })
     }
 }
